@@ -40,6 +40,14 @@ CHECKS = {
              'DashTiming, a sample through real manifests, and TLC validates the recorded outputs (single-state and successive-instant clauses).',
         note='Trusted: TLC, shims, patched clock, lxml projection of MPD attributes. Explicit starts are whole seconds; epoch is combined '
              'only with instants before 2038. Known finding C08-publish-regress matched by signature.', design='4 C08'),
+    'C09': dict(
+        technique='TLA+ spec Refresh.tla over LiveWindow: TLC on timelines at e and e+delta; pure-layer pairs and real manifest/patch '
+                  'documents (patch applied by an independent XML-patch applier) validated by TLC',
+        text='TLC checks on the implementation-shaped timeline model that manifests at e and e+delta agree on common segments and that '
+             'the window only moves forward for every layout, option set and delta of the grid; the same clauses (plus publishTime / '
+             'availabilityStartTime monotonicity) are evaluated on pairs from the real timing layer and from real manifests, and for '
+             'patches the T1 document is patched with the response to its PatchLocation at T2 and compared with the full T2 manifest.',
+        note='Trusted: TLC, lxml, the minimal replace-only XML-patch applier. Known finding C09-patch-symbolic-start-rollover.', design='4 C09'),
     'C13': dict(
         technique='TLA+ spec HttpRange.tla (RFC 7233 single-range semantics): TLC exhaustive small scope; emitted table replayed on the '
                   'real get_http_range; real range requests on every range-capable URL kind; TLC trace validation',
